@@ -17,7 +17,7 @@ from .alg import E, INF, Inf, lift, AlgError, ZERO, ONE
 from .values import *  # noqa: F401,F403
 from .values import (Unsupported, Opaque, UNINIT, IntSym, EnumMember, FuncVal, BoundMethod, Native,
                      Partial, ClassVal, Record, ExcVal, ExtRef, ModuleRef, Guard, Mask, MaskedArray,
-                     keyof, mkarr, cell, full, is_arr, SymIdx, SymArr)
+                     keyof, mkarr, cell, full, is_arr, SymIdx, SymArr, Phi)
 
 
 class ReturnSig(Exception):
@@ -784,23 +784,42 @@ class Interp:
         if isinstance(c, Opaque):
             raise Unsupported(f"if on opaque value ({c.reason})", st)
         assert isinstance(c, Guard)
+        refine = self.phi_refinements(st.test, c, env)
         body_exits = _always_exits(st.body)
         else_exits = _always_exits(st.orelse) if st.orelse else False
         if body_exits and not else_exits:
             outcome = self.run_exit_branch(st.body, env)
             self.guards.append((c, outcome, self.loc(st, env), self.curfunc()))
             self.learn(c.negate())
+            for k, (va, vb) in refine.items():
+                env.vars[k] = vb
             return self.block(st.orelse, env)
         if else_exits and not body_exits:
             outcome = self.run_exit_branch(st.orelse, env)
             self.guards.append((c.negate(), outcome, self.loc(st, env), self.curfunc()))
             self.learn(c)
+            for k, (va, vb) in refine.items():
+                env.vars[k] = va
             return self.block(st.body, env)
         if body_exits and else_exits:
             raise Unsupported("symbolic if with two exiting branches", st)
         # store-only branches: run both on forked environments and join cellwise with select
         self.branches.append((c, ("join", None), self.loc(st, env), self.curfunc()))
-        self.join_branches(c, st, env)
+        self.join_branches(c, st, env, refine)
+
+    def phi_refinements(self, test, c, env):
+        """names in the test that hold a Phi decided by this very condition: name -> (value when c holds, value when it does not)"""
+        out = {}
+        ck, nk = c.key(), c.negate().key()
+        for x in ast.walk(test):
+            if isinstance(x, ast.Name) and env.has(x.id):
+                v = env.lookup(x.id)
+                if isinstance(v, Phi):
+                    if v.cond.key() == ck:
+                        out[x.id] = (v.a, v.b)
+                    elif v.cond.key() == nk:
+                        out[x.id] = (v.b, v.a)
+        return out
 
     def run_exit_branch(self, body, env):
         """Interpret an early-exit branch on a forked env to record what it returns/raises."""
@@ -840,9 +859,12 @@ class Interp:
             f.vars[k] = _fork_value(v, memo)
         return f
 
-    def join_branches(self, c, st, env):
+    def join_branches(self, c, st, env, refine=None):
         e1 = self.fork_env(env)
         e2 = self.fork_env(env)
+        refine = refine or {}
+        for k, (va, vb) in refine.items():
+            e1.vars[k], e2.vars[k] = va, vb
         # free variables the branches use (closure variables such as `self`, containers of the enclosing scope): each branch works on
         # its own copy, and the copies are joined back into the shared object in place
         used = {x.id for part in (st.body, st.orelse) for s_ in part for x in ast.walk(s_) if isinstance(x, ast.Name)}
@@ -875,6 +897,8 @@ class Interp:
                     raise Unsupported(f"enclosing-scope variable {k} changed on one branch of a symbolic if", st)
         names = (set(e1.vars) | set(e2.vars)) - set(free)
         for n in names:
+            if n in refine and e1.vars.get(n) is refine[n][0] and e2.vars.get(n) is refine[n][1]:
+                continue      # only refined for the branches, not assigned
             if n not in e1.vars or n not in e2.vars:
                 v = e1.vars.get(n, e2.vars.get(n))
                 env.vars[n] = self.opaque(f"variable {n} defined on one branch of a symbolic if", st) \
@@ -918,6 +942,8 @@ class Interp:
             return tgt
         if keyof(a) == keyof(b):
             return a
+        if (a is None) != (b is None) and not isinstance(a, (Opaque, Phi)) and not isinstance(b, (Opaque, Phi)):
+            return Phi(c, a, b)
         return self.opaque("join of non-numeric values under a symbolic condition", node)
 
     def select_scalar(self, c, a, b):
@@ -1281,6 +1307,10 @@ class Interp:
         name = type(op).__name__
         if isinstance(a, Opaque) or isinstance(b, Opaque):
             return a if isinstance(a, Opaque) else b
+        if name in ("Is", "IsNot") and (isinstance(a, Phi) and b is None or isinstance(b, Phi) and a is None):
+            ph = a if isinstance(a, Phi) else b
+            g = ph.cond if ph.a is None else ph.cond.negate()       # "is None"
+            return g if name == "Is" else g.negate()
         if name in ("Is", "IsNot"):
             r = (a is b) or (isinstance(a, EnumMember) and isinstance(b, EnumMember) and a == b and a.cls is b.cls)
             if a is None or b is None:
@@ -1412,6 +1442,11 @@ class Interp:
         return True
 
     def binop(self, op, a, b, node=None, env=None):
+        # int(x) of a symbolic scalar used in arithmetic: the truncation of x, as an uninterpreted (numerically evaluable) function
+        if isinstance(b, Opaque) and isinstance(getattr(b, "src", None), E) and not isinstance(a, Opaque) and b.reason.startswith("int()"):
+            b = alg.Fn("int", b.src)
+        if isinstance(a, Opaque) and isinstance(getattr(a, "src", None), E) and not isinstance(b, Opaque) and a.reason.startswith("int()"):
+            a = alg.Fn("int", a.src)
         if isinstance(a, Opaque) or isinstance(b, Opaque):
             return a if isinstance(a, Opaque) else b
         name = type(op).__name__
